@@ -16,6 +16,20 @@ struct Big {
     8: set<i32> ids,
 }
 
+struct OnlyInList {
+    1: required i32 id,
+    2: optional string tag,
+}
+
+struct OnlyInMap {
+    1: required i64 key,
+    2: list<i32> vals,
+}
+
+struct OnlyReturned {
+    1: required string what,
+}
+
 union Either {
     1: Small small,
     2: i32 num,
@@ -31,4 +45,5 @@ service Keeper {
     void push(1: list<Small> items, 2: map<string, Big> bigs),
     Either pick(1: Either e) throws (1: Boom b),
     void nothing(),
+    list<OnlyReturned> collect(1: list<OnlyInList> items, 2: map<string, OnlyInMap> table),
 }
